@@ -17,6 +17,10 @@ func MessageGenerator[T proto.Message](x T, options GeneratorOptions) *rapid.Gen
 	return rapid.Custom(func(t *rapid.T) T {
 		msg := msgType.New()
 
+		// rapid rejects a custom generator that draws nothing, which is what a message
+		// without fields (or an Any without configured types) would otherwise do
+		rapid.Bool().Draw(t, "message")
+
 		options.setFields(t, nil, msg, 0)
 
 		return msg.Interface().(T)
